@@ -15,6 +15,8 @@ KANI = [dict(package="datafusion-common", module=M, harnesses=[
     dict(name="c42_apply_tree4_bounded", complete=False, bound="one 4-node tree (depth 3), all 3^4 decision vectors", what="real TreeNode::apply on a ConcreteTreeNode == reference pre-order with prune/stop"),
     dict(name="c42_visit_tree4_bounded", complete=False, bound="one 4-node tree, all 3^4 x 3^4 down/up decision vectors", what="real TreeNode::visit == independent reference of the combined walk"),
     dict(name="c42_transform_down_tree4_bounded", complete=False, bound="one 4-node tree, all 3^4 x 2^4 vectors", what="real TreeNode::transform_down: rewritten tree == exactly the callback's replacements; changed flag <=> some replacement"),
+    dict(name="c42_transform_down_up_tree4_bounded", complete=False, bound="one 4-node tree, all 3^8 x 2^8 down/up decision and change vectors", what="real TreeNode::transform_down_up (handle_transform_recursion!) == independent reference: callback order, tree, changed flag, final state"),
+    dict(name="c42_rewrite_tree4_bounded", complete=False, bound="one 4-node tree, all 3^8 x 2^8 vectors", what="real TreeNode::rewrite with a TreeNodeRewriter == the same reference"),
     dict(name="c42_transform_up_tree4_bounded", complete=False, bound="one 4-node tree, all 3^4 x 2^4 vectors", what="real TreeNode::transform_up (post-order, Jump skips ancestors) == reference"),
 ])]
 TRUSTED = ["Kani 0.68 / CBMC 6.11 soundness", "Rust std Vec/iterator code is executed by CBMC as compiled MIR (not stubbed)"]
@@ -23,5 +25,5 @@ ASSUMPTIONS = [
     "the induction from the combinator contracts (complete) to trees of arbitrary size is a paper argument; whole-tree harnesses are bounded to one 4-node tree",
     "Expr/LogicalPlan/ExecutionPlan map_children implementations are not covered",
 ]
-NOT_COVERED = ["TreeNodeContainer impls for tuples/maps/Option/Box/Arc", "rewrite / transform_down_up (handle_transform_recursion macro) beyond the combinators they are built from", "concrete node types"]
+NOT_COVERED = ["TreeNodeContainer impls for tuples/maps/Option/Box/Arc (the in-crate TestTreeNode path)", "concrete node types (Expr, LogicalPlan, ExecutionPlan)", "trees other than the one 4-node shape"]
 EXPLANATION = "Complete proofs for the loop-free control combinators every traversal is built from; bounded whole-tree checks of the real generic default methods."
